@@ -12,7 +12,7 @@ def run(tier):
     try:
         from checks import sb_pipeline
         s = sb_pipeline.run(tier, chk.seed)
-        sb_pipeline.apply(chk, s, ["C09"])
+        sb_pipeline.apply(chk, s, ["C09", "C09P"])
     except ImportError:
         pass
     chk.rule = ("for every generator accepted by run_block_generator2 in the C07 streams: additions_and_removals, get_coinspends_for_trusted_block (+ rebuilt generator "
